@@ -163,6 +163,9 @@ func (ex *Exec) registerStubs() {
 		}
 		n[wgKey(a[0])]--
 		st.wgCount = n
+		if r := st.hbRelease(); r > 0 {
+			st.hbMut().wgRel[wgKey(a[0])] = r
+		}
 		return ret1(st, nil)
 	}
 	I["(*sync.WaitGroup).Wait"] = func(ex *Exec, st *State, _ *ssa.CallCommon, a []Value) []Outcome {
@@ -175,6 +178,9 @@ func (ex *Exec) registerStubs() {
 				ex.deadlock(st, ex.cur, "WaitGroup.Wait blocks: the producer is parked in a select waiting for a cancellation that has not happened by the time the consumer waits for it")
 				return nil
 			}
+		}
+		if st.hb != nil {
+			st.hbAcquire(st.hb.wgRel[wgKey(a[0])])
 		}
 		return ret1(st, nil)
 	}
